@@ -21,6 +21,10 @@ func runC16(c *Ctx) {
 	R := c.R
 	_, s := c.Std()
 
+	// the receiving half of the trip: the server's reader undoes exactly the dot-stuffing textproto's DotWriter applies
+	ruleDotTable(c)
+	ruleDotStructure(c)
+
 	R.Rule("R-data-writer", "E4 value flow", "Data/LMTPData return a dataCloser around c.text.DotWriter() obtained on the nil-error edge of the DATA command expecting 354", 4)
 	for _, fn := range []string{"(*Client).Data", "(*Client).LMTPData"} {
 		f := c.A.Func(fn)
